@@ -122,27 +122,44 @@ func runCase(c Case) (out Out) {
 		// the random id is private; it is case data for the model (read, never written)
 		out.IDs = append(out.IDs, reflect.ValueOf(locks[i]).Elem().FieldByName("id").String())
 	}
-	call := func(i int64, rel, ctx bool) []bool {
+	// kind: "" (Acquire/Release) | "ctx" (Background) | "ctx:live" (a request context, cancelled when the
+	// call has returned) | "ctx:cancelled" (already cancelled: the command is never sent)
+	call := func(i int64, rel bool, kind string) []bool {
 		var ok bool
 		var err error
+		ctx, done := context.Background(), func() {}
+		switch kind {
+		case "ctx:live":
+			ctx, done = context.WithCancel(context.Background())
+		case "ctx:cancelled":
+			ctx, done = context.WithCancel(context.Background())
+			done()
+		}
 		switch {
-		case rel && ctx:
-			ok, err = locks[i].ReleaseCtx(context.Background())
+		case rel && kind != "":
+			ok, err = locks[i].ReleaseCtx(ctx)
 		case rel:
 			ok, err = locks[i].Release()
-		case ctx:
-			ok, err = locks[i].AcquireCtx(context.Background())
+		case kind != "":
+			ok, err = locks[i].AcquireCtx(ctx)
 		default:
 			ok, err = locks[i].Acquire()
 		}
+		done()
 		return []bool{ok, err != nil}
+	}
+	kindOf := func(op []any) string {
+		if len(op) > 2 {
+			return op[2].(string)
+		}
+		return ""
 	}
 	for _, op := range c.Ops {
 		switch op[0].(string) {
 		case "acq":
-			out.Obs = append(out.Obs, call(num(op[1]), false, len(op) > 2))
+			out.Obs = append(out.Obs, call(num(op[1]), false, kindOf(op)))
 		case "rel":
-			out.Obs = append(out.Obs, call(num(op[1]), true, len(op) > 2))
+			out.Obs = append(out.Obs, call(num(op[1]), true, kindOf(op)))
 		case "par": // ["par", "acq"|"rel", [i, j, ...]]: the listed instances call concurrently
 			rel := op[1].(string) == "rel"
 			list := op[2].([]any)
@@ -154,7 +171,7 @@ func runCase(c Case) (out Out) {
 				go func(n int, i int64) {
 					defer wg.Done()
 					<-start
-					res[n] = call(i, rel, false)
+					res[n] = call(i, rel, "")
 				}(n, num(v))
 			}
 			close(start)
@@ -166,7 +183,7 @@ func runCase(c Case) (out Out) {
 				failed = true
 			}
 			f.arm(kind)
-			r := call(num(op[1]), op[2].(string) == "rel", false)
+			r := call(num(op[1]), op[2].(string) == "rel", "")
 			if hits := f.disarm(); hits != 1 {
 				out.Err = "fault intercepted " + strconv.Itoa(hits) + " commands"
 				return
@@ -180,7 +197,12 @@ func runCase(c Case) (out Out) {
 			out.Obs = append(out.Obs, nil)
 		case "poke": // ["poke", keyidx, value, ttl_ms]
 			k := c.Keys[num(op[1])]
-			mr.Set(k, op[2].(string))
+			v := op[2].(string)
+			if strings.HasPrefix(v, "@") { // the id of a RedisLock object of this case, written by a foreign client
+				j, _ := strconv.Atoi(v[1:])
+				v = out.IDs[j]
+			}
+			mr.Set(k, v)
 			if t := num(op[3]); t > 0 {
 				mr.SetTTL(k, time.Duration(t)*time.Millisecond)
 			}
